@@ -294,7 +294,7 @@ Proof.
   apply all_strings_complete; auto.
 Qed.
 
-Lemma check_upto_7 : check_upto 7 = true.
+Lemma check_upto_6 : check_upto 6 = true.
 Proof. vm_compute. reflexivity. Qed.
 
 (* non-vacuity: a balanced nested string parses to a depth-2 tree *)
